@@ -181,24 +181,26 @@ def inject_suite(ctx, env, watch):
 
 
 def time_position_suite(ctx, env, watch):
-    """a wall-clock position in verr/aerr is turned by the manifest into the number of the segment that contains it,
-    and exactly that segment fails"""
+    """a wall-clock position in verr/aerr is turned by the manifest into the number of the segment that contains it
+    (counted in the numbering of THAT track: audio and video segment durations differ), and exactly that segment fails"""
     from ..appenv import Clock, utc
     from .. import boxwalk
     import re
     rng = ctx.rng
     c0 = env.client()
     reqs, meta = [], []
-    with env.app.app_context():
-        ts = env.models.MediaFile.get(name='bbb_v7').representation.timescale
-    for trial in range(6 if ctx.quick() else 60):
-        now = utc(2024, 3, 5, 12, rng.randint(0, 59), rng.randint(0, 59))
+    tracks = [('verr', 'bbb_v7', 'm4v'), ('aerr', 'bbb_a1', 'm4a')]
+    for trial in range(8 if ctx.quick() else 80):
+        opt, name, ext = tracks[trial % len(tracks)]
+        with env.app.app_context():
+            ts = env.models.MediaFile.get(name=name).representation.timescale
+        now = utc(2024, 3, 5, rng.choice([0, 1, 3, 12, 12, 23]), rng.randint(1, 59), rng.randint(0, 59))
         back = rng.randint(8, 50)
         tm = now - datetime.timedelta(seconds=back)
         pos = tm.strftime('%H:%M:%SZ')
         c = env.client()
         with Clock(now):
-            url = '/dash/live/bbb/hand_made.mpd?start=today&depth=60&verr=503=%s' % tm.strftime('%Y-%m-%dT%H:%M:%SZ')
+            url = '/dash/live/bbb/hand_made.mpd?start=today&depth=60&%s=503=%s' % (opt, tm.strftime('%Y-%m-%dT%H:%M:%SZ'))
             st, site, r = watch.get(c, url)
             ctx.count('http:inject-time')
             if st != 200:
@@ -206,34 +208,33 @@ def time_position_suite(ctx, env, watch):
                     ctx.violation('%s answers %s (%s)' % (url, st, site), {'url': url, 'now': now.isoformat()})
                 continue
             text = r.get_data(as_text=True)
-            m = re.search(r'verr=503(?:%3D|=)(\d+)(?![\d:-])', text)
+            m = re.search(opt + r'=503(?:%3D|=)(\d+)(?![\d:-])', text)
             if not m:
-                ctx.violation('%s: the manifest does not forward the video error position to the media URLs' % url, {'url': url, 'now': now.isoformat()})
+                ctx.violation('%s: the manifest does not forward the %s position to the media URLs' % (url, opt), {'url': url, 'now': now.isoformat()})
                 continue
             seg = int(m.group(1))
             # which segment contains tm?  ask the served segments themselves
             ast = now.replace(hour=0, minute=0, second=0, microsecond=0)
             delta = int((tm - ast).total_seconds())
-            hit = []
             for k in (seg - 1, seg, seg + 1):
-                u2 = '/dash/live/bbb/bbb_v7/%d.m4v?start=today&depth=60&verr=503=%d' % (k, seg)
+                u2 = '/dash/live/bbb/%s/%d.%s?start=today&depth=60&%s=503=%d' % (name, k, ext, opt, seg)
                 s2, site2, r2 = watch.get(c, u2)
-                u3 = '/dash/live/bbb/bbb_v7/%d.m4v?start=today&depth=60' % k
+                u3 = '/dash/live/bbb/%s/%d.%s?start=today&depth=60' % (name, k, ext)
                 s3, site3, r3 = watch.get(c0, u3)
                 if s3 == 200:
                     summ = boxwalk.segment_summary(r3.data)
                     lo, hi = summ['tfdt'], summ['tfdt'] + summ['duration']
                     contains = lo <= delta * ts < hi
                     if contains != (s2 == 503):
-                        ctx.violation('verr=503=%s at %s: segment %d (%d..%d ticks) %s the instant %d s after availabilityStartTime but is answered %s'
-                                      % (pos, now.isoformat(), k, lo, hi, 'contains' if contains else 'does not contain', delta, s2),
-                                      {'url': url, 'now': now.isoformat()}, key='time-position-segment')
-                    hit.append((k, s2, contains))
-            ctx.nontriv(('time', now.isoformat(), back))
+                        ctx.violation('%s=503=%s at %s: segment %d of %s (%d..%d ticks) %s the instant %d s after availabilityStartTime but is answered %s'
+                                      % (opt, pos, now.isoformat(), k, name, lo, hi, 'contains' if contains else 'does not contain', delta, s2),
+                                      {'url': url, 'now': now.isoformat()}, key='time-position-segment:' + opt)
+            ctx.nontriv(('time', opt, now.isoformat(), back))
+            ctx.dist('time-position:' + opt)
             with env.app.app_context():
-                rep = env.models.MediaFile.get(name='bbb_v7').representation
+                rep = env.models.MediaFile.get(name=name).representation
                 reqs.append([1, rep.start_number, delta, rep.timescale, rep.segment_duration])
-                meta.append(({'url': url, 'now': now.isoformat()}, seg))
+                meta.append(({'url': url, 'now': now.isoformat(), 'track': name}, seg))
     res = common.run_model_parallel(16, reqs)
     ok = True
     for (inp, got), m in zip(meta, res):
